@@ -26,12 +26,11 @@ CLAIMS = {
  'C13': {
   'technique': 'Coq proof that the batched / packed time loop refines the per-sequence recurrence for an arbitrary cell, and of compute_seq_lengths (generated); exact integer-cell correspondence with the real forward_layer; numeric equivalence runs vs torch.nn',
   'text': ('PARTIAL. Proved: for EVERY cell function, every ragged length-sorted batch and initial states, the time loop with a shrinking batch and the previous state sliced to the current batch '
-           '(the model of DPRNNBase.forward_layer, forward direction) equals the packing of the per-sequence recurrences; compute_seq_lengths (Gallina generated statement by statement) returns, '
+           '(the model of DPRNNBase.forward_layer, forward direction) equals the packing of the per-sequence recurrences; for the reverse direction (growing batch, rows of h_0 entering as their sequences start) row i of the loop\'s time-ordered outputs is the reversed recurrence over the reversed row i, for every cell and every column list with non-decreasing lengths; compute_seq_lengths (Gallina generated statement by statement) returns, '
            'for every non-increasing batch-size list, one entry per sequence equal to that sequence\'s length -- the index used to gather last states. The loop model is tied to the code by pins '
            '(slicing in all three cells, growing batch in the reverse direction, rename map) and by running the REAL forward_layer with an integer cell on generated ragged batches in both '
            'directions and comparing outputs and last states exactly with the recurrence evaluated in Coq. The gate equations, multi-layer / bidirectional composition, sort / unsort '
-           'permutations, state_dict keys and parameter gradients are validated numerically against torch.nn.RNN / GRU / LSTM over the configuration grid (not proved); the reverse-direction '
-           'loop is covered by the correspondence run only.'),
+           'permutations, state_dict keys and parameter gradients are validated numerically against torch.nn.RNN / GRU / LSTM over the configuration grid (not proved); sort / unsort is by runs only.'),
  },
  'C15': {
   'technique': 'Coq proofs by structural induction over module trees on validator predicates, walks, fixers and make_private guards regenerated from opacus/validators; real validate / fix / make_private runs on generated trees with a per-layer independence probe',
